@@ -171,11 +171,27 @@ def motion_probe(s, lo, hi):
     pos0 = [u.current_position for u in s.drivers]
     for a in range(lo, hi + 1):
         L.feed(s, L.frame(L.FA, a, 0x35, [0x00, 0x03, 0xE8]))       # set_velocity(1000)
-    L.tick(s, 0.5)
+    try:
+        L.tick(s, 0.5)
+    except Exception as ex:   # noqa
+        return ('the positioning loop raised %s: %s (its thread ends: no unit of the line moves again)'
+                % (type(ex).__name__, ex))
     for j, u in enumerate(s.drivers):
         if pos0[j] < USD.max_position and not u.current_position > pos0[j]:
             return ('unit %d does not move any more after the command (velocity 1000 commanded, one '
                     'iteration of the positioning loop run): position stays %d' % (lo + j, u.current_position))
+    # the loop is shared by the whole line: stop every unit, let the loop run idle past the longest standby
+    # delay (255 * 4.096 ms), and it must still be running (whatever the earlier commands configured on one unit)
+    for a in range(lo, hi + 1):
+        L.feed(s, L.frame(L.FA, a, 0x35, [0x00, 0x00, 0x00]))       # set_velocity(0)
+    try:
+        L.tick(s, 0.5)
+        L.advance(2.0)
+        L.tick(s, 0.5)
+        L.tick(s, 0.5)
+    except Exception as ex:   # noqa
+        return ('the positioning loop raised %s: %s once the units were idle (its thread ends: no unit of the '
+                'line moves again)' % (type(ex).__name__, ex))
     return None
 
 
